@@ -186,7 +186,7 @@ def main():
     for n in range(0, L + 1):
         for spec in itertools.product(ALPHA, repeat=n):
             for pre in preloads:
-                bat.case(hash((spec, str(pre))))
+                bat.case(hash((spec, str(pre))), desc={"batch": [list(x) for x in spec], "queue": [list(x) for x in pre]})
                 pr = check_group(list(spec), pre)
                 if pr:
                     bat.fail("C08.group-events", pr[0], {"kind": "group", "spec": [list(x) for x in spec], "preload": [list(x) for x in pre], "problems": pr[:2]}, "InotifyBuffer._group_events")
